@@ -876,6 +876,126 @@ class Balance(System):
         ri, r, tag, when, mode, cs, k = st.config
         return repr((mode, tag, when, (r in cs) if mode == 'constants' else None, len(cs), k, a[0], obs))
 
+
+# ---------------------------------------------------------------------------------------------------------
+# layer 1d: reactions produced by reaction ALGEBRA, applied to feeds
+
+ALG_FAMILIES = [
+    # (tag, reactant, menu name a, menu name b)
+    ('none', 'Glucose', 'ferment', 'acet'), ('none', 'Glucose', 'ferment', 'gluccomb'), ('none', 'Ethanol', 'etox', 'etcomb'),
+    ('none', 'CH4', 'ch4comb', 'partox'), ('none', 'CH4', 'ch4comb', 'smr'), ('none', 'O2', 'h2comb', 'cocomb'), ('none', 'O2', 'h2comb', 'ch4comb'),
+    ('nat', 'H2O', 'elec', 'wgs'), ('nat', 'Ethanol', 'etox', 'etcomb'), ('nat', 'CH4', 'ch4comb', 'partox'),
+]
+ALG_FAMILIES_T = ALG_FAMILIES + [
+    ('none', 'Glucose', 'glucacid', 'glucreform'), ('none', 'O2', 'etmixed', 'ch4mixed'), ('none', 'CH4', 'ch4mixed', 'dryreform'),
+    ('none', 'Ethanol', 'etpartox', 'etmixed'), ('wg', 'O2', 'h2comb', 'ch4comb'), ('nat', 'O2', 'h2comb', 'ch4comb'), ('nat', 'Glucose', 'ferment', 'gluccomb'),
+    ('vap', 'Ethanol', 'etox', 'etreform'), ('none', 'H2', 'h2comb', 'sabatier'), ('none', 'CO', 'cocomb', 'wgs'),
+]
+ALG_OPS = ('add', 'radd', 'sub', 'iadd', 'isub', 'mulk', 'isub-iadd', 'reduce')
+
+def _ref_from_extent(E, ridx, phases, name):
+    X = -float(E[ridx])
+    r = object.__new__(rc.RefRxn)
+    r.nu = E / X; r.ridx = ridx; r.X = X; r.phases = phases; r.name = name
+    return r
+
+@rc.guard_build
+class Algebra(System):
+    """The result of reaction arithmetic — a+b, b+a, a-b, a+=b, a-=b, 2*a, (a-=b; a+=b), ParallelReaction([a,b]).reduce() — for two
+    reactions on one reactant, with EVERY combination of operand bases (mol/mol, mol/wt, wt/mol, wt/wt), is applied to streams and
+    arrays.  Oracle: the c05.single oracle with the extent vector Ea (+/-) Eb as reference, i.e. mass and every element conserved,
+    exact conversion, feasibility, both bases giving the same stream."""
+    name = 'c05.algebra'
+    def warm(self): _load()
+    def reset_globals(self): rc.reset_reaction_globals()
+    def depth(self, tier): return 1
+
+    def configs(self, tier, seed):
+        self.tier = tier
+        fams = ALG_FAMILIES if tier == 'quick' else ALG_FAMILIES_T
+        cfgs = []
+        for fi in range(len(fams)):
+            for Xs in (((0.2, 0.5), (0.5, 0.2)) if tier == 'quick' else ((0.2, 0.5), (0.5, 0.2), (0.3, 0.3), (1.0, 0.25))):
+                for ba in ('mol', 'wt'):
+                    for bb in ('mol', 'wt'):
+                        for op in ALG_OPS:
+                            if op == 'reduce' and ba != bb: continue
+                            if op in ('sub', 'isub') and Xs[0] == Xs[1]: continue           # no reaction on that reactant represents it
+                            cfgs.append((fi, Xs, ba, bb, op))
+        k = seed % len(cfgs)
+        return cfgs[k:] + cfgs[:k]
+
+    def build(self, config):
+        t = fx.tmo()
+        fi, Xs, ba, bb, op = config
+        tag, r, na, nb = ALG_FAMILIES_T[fi]
+        tg = None if tag == 'none' else tag
+        st = St(); st.config = config
+        a = rc.make_reaction(rc.MENU_INDEX[na], r, Xs[0], 'str', tg, 'mol' if ba == 'mol' else 'wt-set')
+        b = rc.make_reaction(rc.MENU_INDEX[nb], r, Xs[1], 'str', tg, 'mol' if bb == 'mol' else 'wt-set')
+        ra = rc.RefRxn(rc.MENU_INDEX[na], r, Xs[0], tg); rb = rc.RefRxn(rc.MENU_INDEX[nb], r, Xs[1], tg)
+        Ea, Eb = ra.nu * Xs[0], rb.nu * Xs[1]
+        st.error = None
+        st.basis = ba
+        try:
+            if op == 'add': st.rxn, E = a + b, Ea + Eb
+            elif op == 'radd': st.rxn, E, st.basis = b + a, Ea + Eb, bb
+            elif op == 'sub': st.rxn, E = a - b, Ea - Eb
+            elif op == 'iadd':
+                a += b; st.rxn, E = a, Ea + Eb
+            elif op == 'isub':
+                a -= b; st.rxn, E = a, Ea - Eb
+            elif op == 'mulk': st.rxn, E = 2 * (a + b) / 4, (Ea + Eb) / 2
+            elif op == 'isub-iadd':
+                a += b; a -= b; a += b; st.rxn, E = a, Ea + Eb
+            else:
+                st.rxn = t.ParallelReaction([a, b]).reduce(); E = Ea + Eb
+        except Violation: raise
+        except Exception as e:
+            st.rxn = None; st.error = f'{type(e).__name__}: {e}'; E = Ea + Eb
+        st.ref = _ref_from_extent(E, ra.ridx, ra.phases, f'{na}{op}{nb}')
+        st.tagmap = rc.tags_of(rc.MENU_INDEX[na], tg)
+        if st.tagmap: st.tagmap = dict(st.tagmap, **rc.tags_of(rc.MENU_INDEX[nb], tg))
+        st.reactant = r
+        st.last = None; st.moved = False
+        return st
+
+    def actions(self, st):
+        tks = ['S.g', 'SR', 'A'] if not st.ref.phases else ['M', 'MR', 'A2']
+        return [(tk, f) for tk in tks for f in ('wide', 'mixed')]
+
+    def _feed(self, st, f):
+        base = np.full(N, 64.0) if f == 'wide' else np.array([2.5, 80.0, 30.375, 11.0, 20.0, 40.0, 4.0, 16.5, 60.25])
+        base[POS[st.reactant]] = 1.0 if f == 'wide' else 0.5
+        ph = st.ref.phases
+        if not ph: return base
+        n = np.zeros((len(ph), N))
+        for i, ID in enumerate(IDS):
+            p = st.tagmap.get(ID, rc.NAT_PHASE[ID])
+            if p not in ph: p = ph[0]
+            n[ph.index(p), i] = base[i]
+        return n
+
+    def step(self, st, a):
+        fi, Xs, ba, bb, op = st.config
+        tk, f = a
+        match = dict(op=op, bases=ba if ba == bb else f'{ba}/{bb}', tagged=bool(st.ref.phases), target=tk)
+        if st.rxn is None:
+            raise Violation('unexpected-exception', f'{op}: {st.error}', match=dict(match, exc=st.error.split(':')[0], where='algebra'))
+        n0 = self._feed(st, f)
+        tgt = Target(tk, n0, st.ref.phases)
+        outcome = call_reaction(st.rxn, tgt, match)
+        check_outcome(st.ref, tgt, st.basis == 'wt', outcome, match, detail=dict(reaction=st.rxn))
+        st.moved = moved(st.ref, n0)
+        st.last = (a, outcome)
+        return (outcome, bool(st.moved))
+
+    def canon(self, st): return (st.config, None if st.rxn is None else rc.rxn_digest(st.rxn), st.last)
+    def nontrivial(self, st, a, obs): return bool(st.moved) or obs[0] == 'infeasible'
+    def outcome(self, st, a, obs):
+        fi, Xs, ba, bb, op = st.config
+        return repr((op, ba, bb, bool(st.ref.phases), a[0], obs))
+
 # ---------------------------------------------------------------------------------------------------------
 # layer 2: histories — one reaction object reused
 
@@ -884,6 +1004,7 @@ HIST_RXNS = [
     ('single', ((0, 'H2'),), 'nat'), ('single', ((1, 'Glucose'),), 'nat'),
     ('P', ((0, 'H2'), (2, 'CH4')), 'none'), ('S', ((11, 'CH4'), (3, 'CO')), 'none'), ('Y', ((0, 'H2'), (5, 'CO'), (10, 'H2')), 'none'),
     ('P', ((0, 'H2'), (4, 'Ethanol')), 'nat'),
+    ('P', ((1, 'Glucose'), (8, 'Glucose')), 'none'), ('P', ((4, 'Ethanol'), (9, 'Ethanol')), 'nat'),       # members share a reactant (reduce() merges them)
 ]
 
 @rc.guard_build
@@ -978,6 +1099,7 @@ class History(System):
             for i in sorted({0, len(items) - 1}):
                 acts += [('mbasis', i, 'wt'), ('mbasis', i, 'mol')]
             if kind in ('P', 'S'): acts += [('mX', len(items) - 1, 0.75)]
+            if kind == 'P': acts += [('reduce',)]
         return acts
 
     def step(self, st, a):
@@ -995,6 +1117,21 @@ class History(System):
                 raise Violation('unexpected-exception', f'{type(e).__name__}: {e}', match=dict(match, exc=type(e).__name__))
             st.Xs[i] = x
             return ('setX',)
+        if op == 'reduce':
+            # ParallelReaction.reduce(): the reduced set must act like the original, and the ORIGINAL must still act as before
+            tree = self._tree(st)
+            wt = st.basis == 'wt'
+            try: red = st.rxn.reduce()
+            except Exception as e:
+                raise Violation('unexpected-exception', f'reduce(): {type(e).__name__}: {e}', match=dict(match, exc=type(e).__name__))
+            if any(b != st.basis for b in st.mbasis) or any(x is not None for x in st.mX):
+                return ('reduce', 'members-touched')
+            for who, obj in (('reduced', red), ('original', st.rxn)):
+                tgt = Target(st.targets[0].kind, set_feed('gen', items, st.tagmaps), st.phases)
+                m2 = dict(match, target=tgt.kind, who=who)
+                outcome = call_reaction(obj, tgt, m2)
+                check_outcome(tree, tgt, wt, outcome, m2, detail=dict(reaction=obj))
+            return ('reduce', len(red.X))
         if op == 'mbasis':
             _, i, b = a
             try: st.parts[i].basis = b
@@ -1142,4 +1279,4 @@ class History(System):
         return repr((st.config[0], st.config[2], st.basis, a[0], obs, tuple(st.mbasis) if a[0] == 'apply' else None))
 
 
-SYSTEMS = [Single(), Sets(), Balance(), History(), History('c05.history.pkg', 'pkg'), History('c05.history.force', 'force')]
+SYSTEMS = [Single(), Sets(), Balance(), Algebra(), History(), History('c05.history.pkg', 'pkg'), History('c05.history.force', 'force')]
